@@ -206,13 +206,16 @@ def run(chk, repo, tier):
                 base, key = a[2][0], a[2][1]
                 ba = base.single_atom()
                 fl = ba is not None and is_app(ba, 'floor') and key == nf.app('lt', base, C(0))
+                if fl and not (isinstance(ba[2][0], Poly) and ba[2][0].single_atom() is not None and is_app(ba[2][0].single_atom(), 'einsum')):
+                    fl = False          # floor of something other than the gain polynomial itself (an offset, a rounding guard)
             elif a is not None and is_app(a, 'where') and len(a[2]) == 3 and isinstance(a[2][1], Poly) and a[2][1].is_zero() \
                     and isinstance(a[2][2], Poly):
                 # np.where(x < 0, 0, x): the same clamp, written as a selection
                 base = a[2][2]
                 ba = base.single_atom()
                 clamp = True
-                fl = ba is not None and is_app(ba, 'floor') and a[2][0] == nf.app('lt', base, C(0))
+                fl = ba is not None and is_app(ba, 'floor') and a[2][0] == nf.app('lt', base, C(0)) and \
+                    isinstance(ba[2][0], Poly) and ba[2][0].single_atom() is not None and is_app(ba[2][0].single_atom(), 'einsum')
             tagp = 'saturated frame' if any(pol and is_app(c.single_atom() or ('x',), 'any') for c, pol, _ in p.conds
                                             if isinstance(c, Poly)) else 'unsaturated frame'
             chk.ob('C16-h', 'D-order', fa.key, f'floor -> clamp at zero -> cast [{label}, {tagp}]',
@@ -257,8 +260,21 @@ def bayer_channels(repo, chk=None):
         if not (isinstance(r, Tup) and len(r) == 3 and all(isinstance(i, Poly) and len(i.terms) == 1 for i in r.items)):
             raise AnalysisError(f'collect_charge_bayer(flatten=False) does not return three channel images: {fmt(r)[:160]}')
         chans = {}
+        dead = False
         for v in r.items:
             es = [a for a in v.atoms(deep=False) if is_app(a, 'einsum')]
+            if not es and nf.strip_apps(v, ('zeros', 'zeros_like')) != v or (isinstance(v, Poly) and v.is_zero()):
+                # a channel image that is identically zero on this path: only right where the channel cannot collect anything
+                # at all (no pixel of that colour, or an efficiency that is zero at every wavelength)
+                from ..rules import literals
+                exact = any(pol is False and c.single_atom() is not None and is_app(c.single_atom(), ('any', 'm:any', 'count_nonzero'))
+                            for c, pol in literals(p.conds))
+                if chk is not None and not exact:
+                    chk.ob('C16-c', 'N-sibling', f.key, 'no colour channel is dropped', False,
+                           f'a channel image is all zeros under [{conds_str(p)[:120]}]: a test other than "no pixel / no response at '
+                           f'all" switches the channel off', f.loc(p.node))
+                dead = True
+                break
             if len(es) != 1:
                 raise AnalysisError('channel image is not einsum(...) * mosaic')
             qcs = [a for a in nf.value_atoms(es[0][2][2]) if is_app(a, 'call:detector.qe_asarray')]
@@ -273,6 +289,8 @@ def bayer_channels(repo, chk=None):
             if col not in ('red', 'green', 'blue') or col in chans:
                 raise AnalysisError(f'channel colour not identified ({fmt(q)})')
             chans[col] = (v, es[0], qcs[0])
+        if dead:
+            continue
         if set(chans) != {'red', 'green', 'blue'}:
             raise AnalysisError('not all three colour channels found')
         chans['_conds'] = frozenset((nf.vkey(c), pl) for c, pl, _ in p.conds)
